@@ -127,6 +127,20 @@ def judge(names, s, a):
         results.append((k2, st2))
     if sdesc(st) != s:
         return n, True, f'{"+".join(names)} on {a}: functional_step modified its input state', sig
+    if n > 1:
+        # the same step in an environment that was never seeded (the functions fall back to the library-level generator,
+        # re-seeded here so that the step is reproducible): totality and closure do not depend on set_seed()
+        from gym_gridverse.rng import reset_gv_rng
+        reset_gv_rng(len(results))
+        env._rng = None
+        try:
+            st2, reward, done = env.functional_step(st, dyn.ACT[a])
+        except Exception as e:  # noqa: BLE001
+            return n + 1, True, (f'functional_step({"+".join(names)}, {a}) of an environment that was never seeded raised '
+                                 f'{type(e).__name__}: {e}'), dict(sig, unseeded=True)
+        if n < 64 and sdesc(st2) not in [k for k, _ in results]:
+            return n + 1, True, (f'{"+".join(names)} on {a}: the unseeded environment produced a next state that no scripted '
+                                 f'random outcome produces'), dict(sig, unseeded=True)
     # reduce_all termination, and the precondition-bearing rewards, on the first outcome
     if results:
         k2, st2 = results[0]
